@@ -335,6 +335,8 @@ class DtypeDefinition:
             return d
         if self.variable_length:
             raise ValueError(f"A length ({length}) shouldn't be supplied for the variable length dtype '{self.name}'.")
+        if length < 0:
+            raise ValueError(f"A negative length ({length}) was supplied for the '{self.name}' dtype.")
         d = Dtype._create(self, length, scale)
         return d
 
